@@ -64,7 +64,35 @@ inline rc::Gen<FrameHistory> genFrameHistory(const HistoryGenParams& params)
 {
     return rc::gen::exec([params]() {
         FrameHistory hist;
-        static const std::pair<uint16_t, uint8_t> alphabet[] = {{1, 0}, {1, 5}, {2, 0}, {2, 5}};
+        // endpoints: either the plain set {1,2} x {0,5}, or a base endpoint plus endpoints that differ from it in a way an
+        // endpoint key / hash / comparison could confuse (one byte changed, ids packed with overlapping shifts, swapped bytes)
+        std::pair<uint16_t, uint8_t> alphabet[4] = {{1, 0}, {1, 5}, {2, 0}, {2, 5}};
+        if (*range<int>(0, 2) == 0)
+        {
+            uint16_t d = *rc::gen::element<uint16_t>(0x0001, 0x0101, 0x0200, 0x00FF, 0xFF00, 0xFFFF, 0x1234);
+            uint8_t st = *rc::gen::element<uint8_t>(0, 1, 2, 0xFF);
+            std::vector<std::pair<uint16_t, uint8_t>> rel = {
+                {static_cast<uint16_t>(d ^ 0x0100), st},                                             // high device byte differs
+                {static_cast<uint16_t>(d ^ 0x0001), st},                                             // low device byte differs
+                {d, static_cast<uint8_t>(st ^ 1)},                                                   // stream differs
+                {static_cast<uint16_t>(d | (st << 8)), 0},                                           // same value when packed as dev | stream << 8
+                {static_cast<uint16_t>(d & 0x00FF), static_cast<uint8_t>((d >> 8) | st)},            // same value when packed as dev | stream << 8
+                {static_cast<uint16_t>((d << 8) | (d >> 8)), st},                                    // device bytes swapped
+                {static_cast<uint16_t>(st), static_cast<uint8_t>(d)},                                // ids exchanged
+                {static_cast<uint16_t>(d + 0x0100), static_cast<uint8_t>(st - 1)}};                  // same sum / xor style keys
+            alphabet[0] = {d, st};
+            for (int k = 1; k < 4; ++k)
+            {
+                size_t pick = *range<size_t>(0, rel.size() - 1);
+                alphabet[k] = rel[pick];
+                rel.erase(rel.begin() + static_cast<long>(pick));
+            }
+            // endpoints must be pairwise distinct
+            for (int a = 0; a < 4; ++a)
+                for (int b = 0; b < a; ++b)
+                    if (alphabet[a] == alphabet[b])
+                        alphabet[a].second = static_cast<uint8_t>(alphabet[a].second + 16 + a);
+        }
         int nEp = *range<int>(1, std::min(params.endpoints, 4));
         std::vector<GenEndpointState> st(static_cast<size_t>(nEp));
         int n = *range<int>(1, params.maxFrames);
